@@ -45,7 +45,11 @@ type c15Stream struct {
 	FaultLine string
 	FailAt    int // recorder fails at this Encode (1-based)
 	BadLogin  common.RemoteUserLogin
-	Pid       int
+	// LoginAfter >= 0: the session's login is delivered after that many lines
+	// (the held events are then written by the flush inside RemoteLogin);
+	// -1: the login is bound before the first line.
+	LoginAfter int
+	Pid        int
 	Ses       string
 }
 
@@ -72,7 +76,7 @@ func interleave(groups [][]string, r *vlib.Rng) []string {
 
 func c15Gen(seed int64, i int) c15Stream {
 	r := vlib.NewRng(seed, "C15/"+strconv.Itoa(i))
-	s := c15Stream{Groups: map[int64]auGroup{}, FaultPos: -1, Pid: 20000 + i%10000, Ses: strconv.Itoa(2000 + i%5000)}
+	s := c15Stream{Groups: map[int64]auGroup{}, FaultPos: -1, LoginAfter: -1, Pid: 20000 + i%10000, Ses: strconv.Itoa(2000 + i%5000)}
 	kinds := []string{"malformed", "interleave", "write-fail", "bad-login", "bad-pid", "clean"}
 	s.Kind = kinds[i%len(kinds)]
 	n := 3 + r.Intn(12)
@@ -114,6 +118,10 @@ func c15Gen(seed int64, i int) c15Stream {
 		s.Lines = append(s.Lines[:s.FaultPos], append([]string{s.FaultLine}, s.Lines[s.FaultPos:]...)...)
 	case "write-fail":
 		s.FailAt = 1 + (i/len(kinds))%(n+1)
+		if (i/len(kinds))%2 == 1 {
+			// late login: the failing write may be one of the flush at login time
+			s.LoginAfter = 1 + r.Intn(len(s.Lines))
+		}
 	case "bad-login":
 		bad := []common.RemoteUserLogin{
 			{Source: identityEvent(7, 0, time.Now()), PID: 0, CredUserID: "c"},
@@ -142,10 +150,17 @@ func childC15(args []string) {
 	defer out.finish()
 	for i := from; i < to; i++ {
 		s := c15Gen(seed, i)
+		if c15Swallowed[s.Kind] >= 2 {
+			out.add("streams_skipped_after_repeated_swallowed_faults", 1)
+			out.add("streams", 1)
+			continue // two witnesses are enough; each costs the full wait
+		}
 		out.begin(i, s.Kind)
 		c15Run(i, s, out)
 	}
 }
+
+var c15Swallowed = map[string]int{}
 
 func c15Run(i int, s c15Stream, out *childOut) {
 	rec := vlib.NewRec()
@@ -171,15 +186,35 @@ func c15Run(i int, s c15Stream, out *childOut) {
 			returned = true
 		}
 	}
-	// bind the session first so that every event must be emitted
-	sendLogin(common.RemoteUserLogin{Source: identityEvent(3, s.Pid, time.Now().UTC()), PID: s.Pid, CredUserID: "c"})
-	sendLogin(common.RemoteUserLogin{Source: identityEvent(9999, 3999998, time.Now().UTC()), PID: 3999998, CredUserID: "s"})
+	// bind the session first so that every event must be emitted (or, for
+	// LoginAfter >= 0, after that many lines, behind two barrier records)
+	bind := func() {
+		sendLogin(common.RemoteUserLogin{Source: identityEvent(3, s.Pid, time.Now().UTC()), PID: s.Pid, CredUserID: "c"})
+		sendLogin(common.RemoteUserLogin{Source: identityEvent(9999, 3999998, time.Now().UTC()), PID: 3999998, CredUserID: "s"})
+	}
+	if s.LoginAfter < 0 {
+		bind()
+	}
 	for k, l := range s.Lines {
 		if returned {
 			break
 		}
+		if k == s.LoginAfter {
+			for b := 0; b < 2 && !returned; b++ {
+				select {
+				case audits <- vlib.AuUser("USER_ACCT", vlib.BaseTSms+800000+int64(b), uint32(80000+b), 1, "4294967295", "PAM:accounting", "success"):
+				case readErr = <-done:
+					returned = true
+				}
+			}
+			bind()
+			out.add("write_fail_streams_with_late_login", 1)
+		}
 		if s.Kind == "bad-login" && k == s.FaultPos {
 			sendLogin(s.BadLogin)
+		}
+		if returned {
+			break
 		}
 		select {
 		case audits <- l:
@@ -189,6 +224,9 @@ func c15Run(i int, s c15Stream, out *childOut) {
 	}
 	if s.Kind == "bad-login" && s.FaultPos >= len(s.Lines) {
 		sendLogin(s.BadLogin)
+	}
+	if s.LoginAfter >= len(s.Lines) {
+		bind()
 	}
 	// two barrier lines: acceptance of the second proves the first was pushed
 	for k := 0; k < 2 && !returned; k++ {
@@ -220,6 +258,7 @@ func c15Run(i int, s c15Stream, out *childOut) {
 		}
 		if !returned {
 			stuck, why := classifyStacks(vlib.AllStacks(), "auditd.(*Auditd).Read")
+			c15Swallowed[s.Kind]++
 			if stuck {
 				out.violation(sig+":fault-swallowed", fmt.Sprintf("Read keeps running (%s) although the stream contained the fault at position %d: %q", why, s.FaultPos, trunc(s.FaultLine, 80)), wit)
 			} else {
@@ -343,13 +382,14 @@ func checkC15(r *vlib.Run) int {
 	r.Set("malformed_candidates_accepted_by_parser", res.stats["malformed_candidates_accepted_by_parser"])
 	r.Set("events_reaching_correlator", res.stats["events_reaching_correlator"])
 	r.Set("interleaved_streams", res.stats["interleaved_streams"])
+	r.Set("write_fail_streams_with_late_login", res.stats["write_fail_streams_with_late_login"])
 	r.Set("build", "-race")
 	r.Require(res.stats["streams"] == n, "not every stream ran")
 	r.Require(res.stats["faults_fired"] > n/2, "too few faults fired")
 	r.Require(res.stats["events_reaching_correlator"] > n, "too few events observed")
 	r.Assumptions = []string{"a line is malformed iff go-libaudit's auparse.ParseLogLine rejects it (candidates it accepts are treated as records)",
 		"every stream runs in a fresh Auditd.Read with the session's login bound first, so each well-formed kernel event must yield exactly one UserAction"}
-	return r.Finish(res.stats["streams"], res.distinct.Len(), "generated audit streams (3-100 events) with: a malformed line (9 kinds) at every position in turn; line-wise interleavings of the records of 2-3 concurrent kernel events; the event writer failing at the k-th event for every k; an invalid login (PID 0, negative, nil source, empty credential) at every position; a LOGIN record with an unparsable pid; clean streams; distinct = (kind, fault position, fault index) combinations")
+	return r.Finish(res.stats["streams"], res.distinct.Len(), "generated audit streams (3-100 events) with: a malformed line (9 kinds) at every position in turn; line-wise interleavings of the records of 2-3 concurrent kernel events; the event writer failing at the k-th event for every k, with the login bound first or late (so that the failing write is one of the hold-queue flush); an invalid login (PID 0, negative, nil source, empty credential) at every position; a LOGIN record with an unparsable pid; clean streams; distinct = (kind, fault position, fault index) combinations")
 }
 
 func jsonUnmarshal(s string, v any) error { return json.Unmarshal([]byte(s), v) }
